@@ -3,6 +3,7 @@ CONSTANTS
   Impl = "pinned"
   Echo = TRUE
   MaxLen = 6
+  Fixes = {}
   MaxIn = 3
   MaxEng = 2
   PreInit = FALSE
